@@ -76,6 +76,7 @@ def finish(prop, tier, seed, t0, b, results, spec):
     unreproduced = []
     known_hit = {}
     dup_count = {}
+    asan = [None]
     seen_jobs = set()
     for r in results:
         for v in r['violations']:
@@ -88,8 +89,26 @@ def finish(prop, tier, seed, t0, b, results, spec):
             if jid in seen_jobs:
                 continue
             seen_jobs.add(jid)
-            lines, crashed, stderr = H.native_replay(b['replay'], v['job'])
-            what, info = judge(v['job'], lines, crashed, stderr)
+            what = None
+            if prop == 'C07' and 'text' not in v['job'] and (v['kind'] in ('memerr', 'abort') or any(
+                    c.split(':')[0] in ('memory-error',) or ':free' in c.split('.')[0] for c in v['clauses'])):
+                # a memory error: replay under AddressSanitizer, followed by calls that touch every slot again
+                if asan[0] is None:
+                    asan[0] = H.build_asan_replay()
+                job2 = dict(v['job'])
+                cap = len(job2['pre']['vertices']) if job2.get('pre') else job2['cap']
+                follow = []
+                for u in range(cap):
+                    follow += [{'op': 'add', 'v': u}, {'op': 'put', 'v': u, 'd': {'inline': False, 'data': list(range(9))}}, {'op': 'data', 'v': u}]
+                job2['calls'] = list(job2['calls']) + follow
+                lines2, crashed2, stderr2 = H.native_replay(asan[0], job2)
+                m = [l for l in stderr2.splitlines() if 'AddressSanitizer' in l or 'double free' in l]
+                if m:
+                    what, info = ["under AddressSanitizer: " + m[0].strip()[:200] + " (after %d of %d calls)" % (max(0, len(lines2) - 1), len(job2['calls']))], {'asan': True}
+                    v = dict(v, job=job2)
+            if what is None:
+                lines, crashed, stderr = H.native_replay(b['replay'], v['job'])
+                what, info = judge(v['job'], lines, crashed, stderr)
             rec = dict(property=prop, task=r['name'], key=key, clauses=v['clauses'], kind=v['kind'], detail=v.get('detail'),
                        job=v['job'], native=what, info=info)
             if not what:
@@ -281,7 +300,10 @@ def mem_tasks(tier):
 
 PROPS = {
     'C17': TextSpec(),
-    'C15': KaniSpec('c15_', "Hex observers, indices and the six range kinds agree with the byte slice (ok / panic harness pairs); equality across representations; i64/f64 conversions"),
+    'C15': KaniSpec('c15_', "Hex observers, indices and the six range kinds agree with the byte slice (ok / panic harness pairs); equality across representations; i64/f64 conversions (engine K); from_str(print(h)) == h (engine S)",
+                    text_tasks=lambda tier: [Task('print-parse Hex, %d bytes %s' % (L, 'inline' if inl else 'heap'), 'seir.ptext:ob_hex_print',
+                                                  cases=[(L, inl, tuple(range(L)))], _weight=2 ** L)
+                                             for L in range(0, (9 if tier == 'quick' else 11)) for inl in (True, False) if not (inl and L > 8)]),
     'C16': KaniSpec('c16_', "concat is byte-string concatenation for all four representation combinations, split by the region of the recorded finding", known_harness='c16_concat_inside_known_region'),
     'C01': GraphSpec(['add', 'put', 'data', 'bind', 'next_id', 'readers'],
                      "GC safety as a step relation from every Inv state: only data(v) removes, only members of v's group "
